@@ -37,7 +37,9 @@ Failing(e) ==
         ELSE {})
   \cup (IF a.op \in BinOps THEN
           \* under enforce_item_equivalence, combining unequal items with one key is rejected like add
-          IF e.res = "ValueError" /\ cfg.enforce /\ ~Aligned(pre, a.o) THEN {}
+          \* (for a union this is demanded: its result is built by adding both operands' items to one enforcing set)
+          IF a.op = "or" /\ cfg.enforce /\ Conflict(pre, a.o.items) /\ e.res # "ValueError" THEN {"enforce_equivalence_union"}
+          ELSE IF e.res = "ValueError" /\ cfg.enforce /\ ~Aligned(pre, a.o) THEN {}
           ELSE IF e.res # "ok" \/ ~e.r_is_kset THEN {"algebra_outcome"}
           ELSE IF ~WellFormed(e.ret) THEN {"algebra_items"}
           ELSE (IF ~ResultOK(a.op, pre, a.o, e.ret) THEN {"algebra_one_item_per_key"} ELSE {})
